@@ -132,6 +132,9 @@ def verify_function(world, cname, prop, timeout_ms=QUICK_TIMEOUT_MS, source_over
                     try:
                         val = ex.coerce_param(val, c.returns) if val is not NONE or True else val
                     except EngineError as e:
+                        if "static type mismatch" in str(e):
+                            ex.oblige("post", s, z3.BoolVal(False), f"returned object has the wrong class: {e}", name="post:return-class")
+                            continue
                         raise EngineError(f"return value {oc[1]} does not fit declared kind {c.returns}: {e}")
                 envp["result"] = val
                 for gname in c.ghosts:
